@@ -8,6 +8,26 @@ from . import impl
 from . import blockshapes as bs
 
 
+TERMINATORS = ('endif', 'endselect', 'next', 'wend', 'loop', 'endsub', 'endfunction')
+HEADERS = ('if', 'select', 'for', 'while', 'do', 'sub', 'function')
+CLAUSES = ('elseif', 'else', 'case', 'caseelse')
+
+
+def kind_class(kind):
+    """coarse class of a generator statement kind (violation features)"""
+    if kind in TERMINATORS:
+        return 'terminator'
+    if kind in HEADERS:
+        return 'header'
+    if kind in CLAUSES:
+        return 'clause'
+    if kind == 'if1':
+        return 'if1'
+    if kind == '?':
+        return '?'
+    return 'simple'
+
+
 def decode(code):
     """[(addr, op, operand bytes)] by linear sweep, or None"""
     starts = impl.instr_starts(code)
@@ -99,12 +119,12 @@ class _IoMon:
         pc, n0, last = self.pending
         self.pending = None
         ev = self.env.events
-        if len(ev) > n0:
-            self.log.append((pc, ev[n0]))
-        elif last is not None and ev and ev[-1][0] == 'print' and len(ev[-1][1]) > last:
-            self.log.append((pc, ('print', ev[-1][1][last:])))
-        else:
-            self.log.append((pc, None))
+        new = []
+        if last is not None and n0 >= 1 and len(ev) >= n0 and ev[n0 - 1][0] == 'print' \
+                and len(ev[n0 - 1][1]) > last:
+            new.append(('print', ev[n0 - 1][1][last:]))
+        new.extend(ev[n0:])
+        self.log.append((pc, new))
 
 
 def _print_tag(text):
@@ -115,14 +135,14 @@ def _print_tag(text):
 
 
 def analyse(src, module, stmts=None, script=None, on_empty=None, horizon=60000,
-            dynamic=True):
+            dynamic=True, fail=None):
     """-> (violations, info).  A violation is (divergence, stmt_kind, detail).
     `stmts` = the generator's statement table (None for untagged programs:
     then only the oracles that need no ground truth are applied)."""
     bad = []
     info = {'records': 0, 'instrs': 0, 'tag_instrs': 0, 'io_checked': 0,
             'trap_checked': 0, 'empty_records': 0, 'routines': 0, 'outcome': None,
-            'find_calls': 0}
+            'find_calls': 0, 'tags_absent': 0, 'ev_checked': 0}
     code = module.code
     di = module.debug_info
     if di is None:
@@ -138,6 +158,9 @@ def analyse(src, module, stmts=None, script=None, on_empty=None, horizon=60000,
 
     def kind_of(rec):
         return rec.gen['kind'] if rec is not None and rec.gen is not None else '?'
+
+    def cls_of(rec):
+        return kind_class(kind_of(rec))
 
     # ---- records
     recs = []
@@ -181,8 +204,9 @@ def analyse(src, module, stmts=None, script=None, on_empty=None, horizon=60000,
             else:
                 inner = outer = None
             if inner is None:
-                bad.append(('laminar', kind_of(p) + '+' + kind_of(q),
-                            {'a': p.brief(src), 'b': q.brief(src)}))
+                bad.append(('laminar', '+'.join(sorted((cls_of(p), cls_of(q)))),
+                            {'a': p.brief(src), 'b': q.brief(src),
+                             'kinds': [kind_of(p), kind_of(q)]}))
                 continue
             same_code = (p.a, p.b) == (q.a, q.b)
             if stmts is not None and inner.gen is not None and outer.gen is not None:
@@ -194,8 +218,9 @@ def analyse(src, module, stmts=None, script=None, on_empty=None, horizon=60000,
                 if same_code and gi['id'] in bs.ancestors(stmts, go['id']):
                     continue
                 bad.append(('ambiguous' if same_code else 'nesting',
-                            kind_of(outer) + '>' + kind_of(inner),
-                            {'outer': outer.brief(src), 'inner': inner.brief(src)}))
+                            cls_of(outer) + '>' + cls_of(inner),
+                            {'outer': outer.brief(src), 'inner': inner.brief(src),
+                             'kinds': [kind_of(outer), kind_of(inner)]}))
             elif stmts is None and same_code:
                 # without ground truth: equal code, then one extract inside the other
                 if not ((p.sa <= q.sa and q.sb <= p.sb) or (q.sa <= p.sa and p.sb <= q.sb)):
@@ -222,6 +247,7 @@ def analyse(src, module, stmts=None, script=None, on_empty=None, horizon=60000,
 
     by_addr = {a: (op, operand) for a, op, operand in instrs}
     order = [a for a, _, _ in instrs]
+    uncovered = set()
     for ri, (entry, end) in enumerate(ext):
         body = [a for a in order if entry <= a < end]
         rets = [a for a in body if by_addr[a][0] in ('ret', 'retv')]
@@ -229,26 +255,47 @@ def analyse(src, module, stmts=None, script=None, on_empty=None, horizon=60000,
             bad.append(('routine', '?', {'extent': [entry, end], 'why': 'no frame/ret'}))
             continue
         final = rets[-1]
+        gap = []
+
+        def flush():
+            # one violation per maximal run of uncovered instructions, named
+            # after the innermost tagged statement whose operand lies in it
+            if not gap:
+                return
+            owner, depth = None, -1
+            for a in gap:
+                t = _tag_of_instr(by_addr[a][0], by_addr[a][1], module.literals, tags)
+                if t is not None:
+                    d = len(bs.ancestors(stmts, tags[t]['id']))
+                    if d > depth:
+                        owner, depth = tags[t], d
+            prev = [r for r in live if r.b <= gap[0]]
+            near = max(prev, key=lambda r: r.b) if prev else None
+            bad.append(('uncovered', owner['kind'] if owner else '-',
+                        {'addrs': [gap[0], gap[-1]], 'ops': [by_addr[a][0] for a in gap][:12],
+                         'routine_entry': entry, 'statement': owner['text'] if owner else None,
+                         'previous_record': near.brief(src) if near else None}))
+            del gap[:]
+
         for a in body:
             if not (entry < a < final):
                 continue
             mins = innermost(a)
             if not mins:
-                prev = [r for r in live if r.b <= a]
-                near = max(prev, key=lambda r: r.b) if prev else None
-                bad.append(('uncovered', by_addr[a][0] + '@' + kind_of(near),
-                            {'addr': a, 'op': by_addr[a][0], 'routine_entry': entry,
-                             'previous_record': near.brief(src) if near else None}))
+                uncovered.add(a)
+                gap.append(a)
                 continue
+            flush()
             got = find(a)
             if isinstance(got, Exception) or got is None:
-                bad.append(('find_stmt', kind_of(mins[0]),
+                bad.append(('find_stmt', cls_of(mins[0]),
                             {'addr': a, 'got': repr(got)[:120], 'innermost': mins[0].brief(src)}))
                 continue
             gk = (got.start_offset, got.end_offset, got.source_start_offset, got.source_end_offset)
             if gk not in {r.key() for r in mins}:
-                bad.append(('find_stmt', kind_of(mins[0]),
+                bad.append(('find_stmt', cls_of(mins[0]),
                             {'addr': a, 'got': Rec(got).brief(src), 'innermost': mins[0].brief(src)}))
+        flush()
     # routine records
     rrecs = []
     try:
@@ -276,6 +323,8 @@ def analyse(src, module, stmts=None, script=None, on_empty=None, horizon=60000,
     def attributed(a, tag, what):
         g = tags[tag]
         got = find(a)
+        if got is None and a in uncovered:
+            return          # already reported as 'uncovered'
         if isinstance(got, Exception) or got is None:
             bad.append((what, g['kind'], {'addr': a, 'tag': tag, 'got': repr(got)[:120],
                                           'statement': g['text'], 'statement_line': g['line']}))
@@ -295,47 +344,96 @@ def analyse(src, module, stmts=None, script=None, on_empty=None, horizon=60000,
             info['tag_instrs'] += 1
             seen_tags.add(t)
             attributed(a, t, 'tag-attribution')
-        # a PRINT cannot be optimised away: its tag must be in the code
-        for t, g in tags.items():
-            if g['kind'] in ('print', 'prints', 'fail', 'setret', 'fcall') and t not in seen_tags:
-                bad.append(('tag-missing', g['kind'], {'tag': t, 'statement': g['text']}))
+        # (no demand that a tag survives: dead code may be removed)
+        info['tags_absent'] = sum(1 for t in tags if t not in seen_tags)
 
     # ---- one run: device interactions and the run-time error
     if dynamic:
-        env = impl.Env(script, on_empty=on_empty)
+        env = impl.Env(script, on_empty=on_empty, fail=fail or ())
         mon = _IoMon(code, env)
         out, mach = impl.run_module(module, env, horizon=horizon, monitor=mon)
         info['outcome'] = (out.end, out.trap)
-        for pc, ev in mon.log:
-            if ev is None:
-                continue
-            if stmts is not None:
-                if ev[0] == 'print':
-                    t = _print_tag(ev[1])
-                    if t in tags:
+
+        def same_statement(a, g, what, extra):
+            """find_stmt(a) must be a record of generator statement g (its
+            extract lies inside g's text and in no smaller statement)"""
+            got = find(a)
+            if got is None and a in uncovered:
+                return      # already reported as 'uncovered'
+            if isinstance(got, Exception) or got is None:
+                bad.append((what, g['kind'], dict(extra, addr=a, got=repr(got)[:120],
+                                                  statement=g['text'], statement_line=g['line'])))
+                return
+            r = Rec(got)
+            ok = isinstance(r.sa, int) and isinstance(r.sb, int) and 0 <= r.sa < r.sb <= len(src)
+            if ok:
+                gg, _ = bs.stmt_at(stmts, *_strip_span(src, r.sa, r.sb))
+                ok = gg is not None and gg['id'] == g['id'] and r.line == g['line']
+            if not ok:
+                bad.append((what, g['kind'], dict(extra, addr=a, got=r.brief(src),
+                                                  statement=g['text'], statement_line=g['line'])))
+
+        # statements that announce the device event they produce
+        by_ev = {}
+        for g in (stmts or ()):
+            if g.get('ev'):
+                by_ev.setdefault(tuple(g['ev']), []).append(g)
+        by_ev = {k: v[0] for k, v in by_ev.items() if len(v) == 1}
+        g = by_ev.get(('timer',))
+        if g is not None:
+            # other statements that call TIMER without announcing it
+            anc = set(bs.ancestors(stmts, g['id'])) | {g['id']}
+            if any('TIMER' in o['text'] and o['id'] not in anc for o in stmts):
+                del by_ev[('timer',)]
+
+        for pc, evs in mon.log:
+            for ev in evs:
+                if stmts is not None:
+                    hit = False
+                    if ev[0] == 'print':
+                        t = _print_tag(ev[1])
+                        if t in tags:
+                            info['io_checked'] += 1
+                            attributed(pc, t, 'io-attribution')
+                            hit = True
+                    for pre, g in by_ev.items():
+                        if tuple(ev[:len(pre)]) == pre:
+                            info['io_checked'] += 1
+                            info['ev_checked'] += 1
+                            same_statement(pc, g, 'io-attribution', {'event': impl.jsonable(ev)})
+                            hit = True
+                    if not hit and ev[0] == 'timer':
                         info['io_checked'] += 1
-                        attributed(pc, t, 'io-attribution')
-                elif ev[0] == 'timer':
+                        got = find(pc)
+                        ok = not isinstance(got, Exception) and got is not None and \
+                            'TIMER' in src[got.source_start_offset:got.source_end_offset]
+                        if got is None and pc in uncovered:
+                            ok = True       # already reported as 'uncovered'
+                        if not ok:
+                            bad.append(('io-attribution', 'timer',
+                                        {'addr': pc, 'got': repr(got)[:120] if got is None or isinstance(
+                                            got, Exception) else Rec(got).brief(src)}))
+                else:
                     info['io_checked'] += 1
                     got = find(pc)
-                    ok = not isinstance(got, Exception) and got is not None and \
-                        'TIMER' in src[got.source_start_offset:got.source_end_offset]
-                    if not ok:
-                        bad.append(('io-attribution', 'timer',
-                                    {'addr': pc, 'got': repr(got)[:120] if not ok and (got is None or isinstance(got, Exception)) else Rec(got).brief(src)}))
-            else:
-                info['io_checked'] += 1
-                got = find(pc)
-                if isinstance(got, Exception) or got is None:
-                    bad.append(('io-attribution', '?', {'addr': pc, 'event': impl.jsonable(ev),
-                                                        'got': repr(got)[:120]}))
+                    if got is None and pc in uncovered:
+                        continue        # already reported as 'uncovered'
+                    if isinstance(got, Exception) or got is None:
+                        bad.append(('io-attribution', '?', {'addr': pc, 'event': impl.jsonable(ev),
+                                                            'got': repr(got)[:120]}))
         if out.end == 'trap' and out.trapped_addr is not None:
             ta = out.trapped_addr
             if stmts is not None:
-                if out.trap == 'INVALID_CELL_VALUE':
+                announced = [g for g in stmts if g.get('trap')]
+                if announced:
+                    # the program was built around one failing statement
+                    if len(announced) == 1 and announced[0]['trap'] == out.trap:
+                        info['trap_checked'] += 1
+                        same_statement(ta, announced[0], 'trap-attribution', {'trap': out.trap})
+                elif out.trap == 'INVALID_CELL_VALUE':
                     # the constructed failing statement: the one with the
                     # tagged operand closest before the trapping instruction
-                    fails = [s for s in stmts if s['kind'] == 'fail']
+                    fails = [s_ for s_ in stmts if s_['kind'] == 'fail']
                     cand = None
                     for a, op, operand in instrs:
                         if a > ta:
@@ -350,7 +448,9 @@ def analyse(src, module, stmts=None, script=None, on_empty=None, horizon=60000,
                 if ta in starts and any(e < ta < x for e, x in ext):
                     info['trap_checked'] += 1
                     got = find(ta)
-                    if isinstance(got, Exception) or got is None:
+                    if got is None and ta in uncovered:
+                        pass        # already reported as 'uncovered'
+                    elif isinstance(got, Exception) or got is None:
                         bad.append(('trap-attribution', '?', {'addr': ta, 'trap': out.trap,
                                                               'got': repr(got)[:120]}))
     return bad, info
